@@ -168,6 +168,9 @@ func runC20(c hx.Config) error {
 	if c.Thorough() {
 		nRandom = 150
 	}
+	// strings built for each format (valid samples and near misses): also fed to every OTHER format below
+	pool := map[string][]string{}
+	seenBy := map[string]map[string]bool{}
 	for _, f := range formats {
 		if f.family != "" || *onlyOpt {
 			continue
@@ -178,6 +181,7 @@ func runC20(c hx.Config) error {
 			return fmt.Errorf("no generator for format %s", f.name)
 		}
 		seen := map[string]bool{}
+		seenBy[f.name] = seen
 		put := func(s, how string) {
 			if seen[s] {
 				return
@@ -196,6 +200,7 @@ func runC20(c hx.Config) error {
 		for _, s := range g.near {
 			put(s, "near")
 		}
+		pool[f.name] = append(append([]string{}, seeds...), g.near...)
 		alpha := g.alphabet + "\n gGzZ%x:./-+=_@\x00\x7f"
 		for _, s := range append(append([]string{}, seeds...), g.near...) {
 			for _, m := range neighbours(s, alpha, g.seps) {
@@ -216,6 +221,26 @@ func runC20(c hx.Config) error {
 			}
 			m2 := hx.Pick(rng, ns2)
 			put(m2.s, m.how+"+"+m2.how)
+		}
+	}
+	// Cross-format pool: the valid samples and near misses of every format go to the schema of every OTHER
+	// format (a validator that is replaced by a laxer parser typically starts to accept another format's
+	// strings: an IPv6 literal as IPv4, a CIDR as an address, a date-time as a date, ...).
+	for _, f := range formats {
+		if f.family != "" || *onlyOpt {
+			continue
+		}
+		l, seen := lives[f.name], seenBy[f.name]
+		for _, g := range formats {
+			if g.family != "" || g.name == f.name {
+				continue
+			}
+			for _, s := range pool[g.name] {
+				if !seen[s] {
+					seen[s] = true
+					emit(l, s, "cross:"+g.name)
+				}
+			}
 		}
 	}
 	// Option families: the variants of one constructor share library code (regex builders, caches),
